@@ -99,3 +99,19 @@ mk copy-rename-residual src/bits/bit_field_vec.rs "            let residual =
                 bit_len - (W::BITS - src_bit) - (dst_last_word - dst_first_word - 1) * W::BITS;
             let mask = W::MAX >> (W::BITS - residual);" "            let rest = bit_len - (dst_last_word - dst_first_word - 1) * W::BITS - (W::BITS - src_bit);
             let mask = W::MAX >> (W::BITS - rest);"
+mk echelon-break-inner src/utils/mod2_sys.rs "                        continue 'main;" "                        break;"
+mk gauss-for-loop src/utils/mod2_sys.rs "        self.equations
+            .iter()
+            .rev()
+            .filter(|eq| !eq.is_identity())
+            .for_each(|eq| {
+                solution[eq.vars[0] as usize] =
+                    eq.c ^ Modulo2Equation::<W>::eval_vars(&eq.vars, &solution);
+            });" "        for eq in self.equations.iter().rev() {
+            if eq.is_identity() {
+                continue;
+            }
+            solution[eq.vars[0] as usize] =
+                eq.c ^ Modulo2Equation::<W>::eval_vars(&eq.vars, &solution);
+        }"
+mk addptr-ne src/utils/mod2_sys.rs "dst = dst.add((less ^ more) as usize);" "dst = dst.add((less != more) as usize);"
